@@ -225,4 +225,5 @@ HOOK_COMMITS = []
 NOTES = ("All checks rebuild from /repo's working tree on every run (sources are copied to a private scratch directory under "
          "/verif/.work and specification-only text is woven in; the weave is checked reversible byte for byte). Exit 0 held, "
          "1 VIOLATION, 2 UNDECIDED (timeout, weave/compile break, tool error) -- an undecided obligation is never reported as a violation. "
-         "Four genuine defects were repaired by fix: commits in /repo (known_findings.json, DESIGN.md section 8).")
+         "Five genuine defects were repaired by fix: commits in /repo (known_findings.json, DESIGN.md section 12.3); one open known finding (C07, frozen word lists). "
+         "When a unit is undecided the check additionally runs a native refutation search through the public API (replay api_battery); only a concrete failing input found there is reported as a violation.")
